@@ -497,7 +497,7 @@ mod c09 {
         kani::cover!(matches!(a0, Some((_, false))), "unsent ack piggy-backed");
     }
 
-    // TIER: quick
+    // TIER: quick   ALSO: C15
     // KIND: complete
     #[kani::proof]
     #[kani::stub(embassy_time::Instant::now, fake_now)]
